@@ -113,6 +113,7 @@ Definition res_eqb (a b : res) : bool :=
   | RInt x, RInt y | RElt x, RElt y => x =? y
   | RSeq x, RSeq y => list_eqb Z.eqb x y
   | RErr x, RErr y => errc_eqb x y
+  | ROther, ROther => true        (* never produced by the model or the specification *)
   | _, _ => false
   end.
 
